@@ -156,6 +156,26 @@ let register (h : (string, string list -> string) Hashtbl.t)
       Printf.sprintf "%s %d,%d,%d %s" (le_str (select_le st given)) (int_of_nat cs.n_lf) (int_of_nat cs.n_crlf) (int_of_nat cs.n_cr)
         (le_str (select_le st cs))
     | _ -> failwith "nlauto args");
+  (* Model H (Model/ChunkList.v): listops <fuel> <op;op;...>  with op = A,o,r,nl,cnt | B,o,r,nl,cnt | D,x | M,x,r | S,a,b | L,a,b
+     -> "F id:nlcount ... | R id ..."  (the same line the hook UNC_VERIF_LISTOPS prints) *)
+  Hashtbl.replace h "listops" (fun args ->
+    match args with
+    | [fuel; ops] ->
+      let n x = nat_of_int (int_of_string x) in
+      let parse t = match String.split_on_char ',' t with
+        | ["A"; o; r; nl; c] -> NewAfter (n o, n r, nl <> "0", n c)
+        | ["B"; o; r; nl; c] -> NewBefore (n o, n r, nl <> "0", n c)
+        | ["D"; x] -> Delete (n x)
+        | ["M"; x; r] -> MoveAfter (n x, n r)
+        | ["S"; a; b] -> Swap (n a, n b)
+        | ["L"; a; b] -> SwapLines (n a, n b)
+        | _ -> failwith "listops op" in
+      let l = List.map parse (List.filter (fun t -> t <> "") (String.split_on_char ';' ops)) in
+      let fu = n fuel in
+      let (fw, bw) = cl_observe fu (cl_run fu l) in
+      "F" ^ String.concat "" (List.map (fun (x, c) -> Printf.sprintf " %d:%d" (int_of_nat x) (int_of_nat c)) fw)
+      ^ " | R" ^ String.concat "" (List.map (fun x -> Printf.sprintf " %d" (int_of_nat x)) bw)
+    | _ -> failwith "listops args");
   Hashtbl.replace h "check_exit" (fun args ->
     match args with
     | [bits] ->
